@@ -1,5 +1,6 @@
 """C20 - core value types convert losslessly and bitboards behave as sets of squares."""
 from . import valuerules, witness
+from .aisetup import total_roots_rule
 
 
 def ctfe_rule(ctx, rid, prefix):
@@ -35,9 +36,15 @@ def run(ctx):
         "E2 from_char accepts exactly the documented spellings (0x300 code points each) and inverts as_char for File/Rank/Color/Cell; "
         "Bitboard's operators are the u64 primitive; Coord::shift tabulated on 64x19x19 points",
     ]
-    ctx.not_decided += ["text round trips through Display/FromStr as strings, deposit_bits and iteration order (they need evaluation over "
-                        "64-bit data); their panic freedom is under C12/C19's abstract interpreter"]
+    ctx.not_decided += ["text round trips through Display/FromStr as strings, the values computed by deposit_bits and the iteration order "
+                        "(they need evaluation over 64-bit data); their panic freedom is rule E2p"]
     ctfe_rule(ctx, "E3", "C20")
     valuerules.char_tables_rule(ctx, facts, "E2c")
     valuerules.operator_rule(ctx, facts, "E2o")
     valuerules.shift_rule(ctx, facts, "E2s")
+    total_roots_rule(ctx, facts, "E2p", [
+        ("bb_ops", "Bitboard &,|,^,!,has,len,is_empty"), ("bb_assign_ops", "Bitboard op-assign, set, unset"), ("bb_with", "Bitboard::with/without"),
+        ("bb_from_coord", "Bitboard::from_coord"), ("bb_flips", "Bitboard::flipped_rank/flipped_file"), ("bb_deposit", "Bitboard::deposit_bits"),
+        ("bb_iter", "Bitboard iteration"), ("bb_raw", "Bitboard raw conversions"), ("bbc_rank", "bitboard_consts::rank"),
+        ("bbc_file", "bitboard_consts::file"),
+    ], "bitboard operations are total: no overflow, shift or bounds assertion is reachable for any operand")
